@@ -228,6 +228,15 @@ PROPS = {
         rule="case i mod 4: integer literal / float literal / one-element typed array (11 kinds x header bases) / quoted string of 0-6 segments; distinct by document text",
         trusted_base=COMMON_TB + ["CE/Cte/Lit.lean is the reading of the property text and of the CTE specification (reference parser)"],
     ),
+    "C23": dict(
+        claim="Lean model of arrayEncoderEngine.AddArrayData (the carry-over of a partial element between data events, statement by statement) and theorems for every element width and every division of an array's bytes into data events, mid-element splits and empty events included: the elements handed to the element writer are those of the concatenated bytes (elements_depend_only_on_bytes), two divisions of the same bytes give the same elements and hence the same text (rechunking_preserves_elements), nothing is lost or invented (nothing_lost_or_invented). "
+              "Harness: every array of generated rules-valid streams (typed arrays of every kind, strings, resource ids, media, custom binary/text, bit arrays) is re-chunked at random element / character boundaries and its data split at random byte offsets (two re-chunkings per stream): the CTE text must be identical; decode(text) encoded again must reproduce the text; integer arrays fed as random data-event splits under random format settings must give the text the engine+format model predicts (CTE.ENGINE)",
+        note="partial: strings/bit arrays/media/custom arrays and the layout decorators are not modelled (oracle only); the decode->encode half is an oracle on the implementation. Three defects found by this check were repaired (fixes 24ed4d4, 44b01ee)",
+        level="proof", n_quick=6000, n_thorough=300000, shards=16,
+        lean_modules=["CE.Props.C23", "CE.Cte.ArrEngineProofs", "CE.Gen.CheckCte"],
+        rule="two thirds: generated rules-valid streams (CTE-encodable), each re-chunked twice and re-encoded once; one third: a single integer array of 0-11 boundary/random elements in chunked form with random data splits under a random format; distinct by event text; non-trivial = more than the header events",
+        trusted_base=COMMON_TB,
+    ),
     # NEW-ENTRIES-ABOVE
 }
 
